@@ -31,6 +31,7 @@ simplifications:
 - what to do on a change of descriptive data is not yet implemented
 """
 
+import threading
 import time
 
 import frappy.client
@@ -62,7 +63,8 @@ class SecopClient(frappy.client.SecopClient):
         else:
             datatype = self.modules[module]['parameters'][parameter]['datatype']
             msg = EVENTREPLY, specifier, (datatype.export_value(value), {'t': timestamp})
-        self.dispatcher.broadcast_event(msg)
+        with self.dispatcher.update_lock:  # not while a connection is sent the cached values
+            self.dispatcher.broadcast_event(msg)
 
     def nodeStateChange(self, online, state):
         t = time.time()
@@ -103,6 +105,7 @@ class Router(frappy.protocol.dispatcher.Dispatcher):
             raise frappy.errors.ConfigError("a router needs either 'node' as a string'"
                                             "' or 'nodes' as a list of strings") from e
         super().__init__(name, logger, options, srv)
+        self.update_lock = threading.Lock()
         self.nodes = [SecopClient(uri, logger.getChild(f'routed{i}'), self) for i, uri in enumerate(uris)]
         # register callbacks
         for node in self.nodes:
@@ -159,18 +162,20 @@ class Router(frappy.protocol.dispatcher.Dispatcher):
         return DESCRIPTIONREPLY, specifier, result
 
     def handle_activate(self, conn, specifier, data):
-        super().handle_activate(conn, specifier, data)
-        for node in self.nodes:
-            for (module, parameter), (value, t, readerror) in node.cache.items():
-                if self.node_by_module.get(module) is not node:
-                    continue  # hidden by the module with the same name of another node
-                spec = f'{module}:{parameter}'
-                if readerror:
-                    reply = ERRORPREFIX + EVENTREPLY, spec, (readerror.name, str(readerror), {'t': t})
-                else:
-                    datatype = node.modules[module]['parameters'][parameter]['datatype']
-                    reply = EVENTREPLY, spec, [datatype.export_value(value), {'t': t}]
-                conn.send_reply(reply)
+        # an update arriving meanwhile is sent after the cached values, and does not disturb the loop
+        with self.update_lock:
+            super().handle_activate(conn, specifier, data)
+            for node in self.nodes:
+                for (module, parameter), (value, t, readerror) in list(node.cache.items()):
+                    if self.node_by_module.get(module) is not node:
+                        continue  # hidden by the module with the same name of another node
+                    spec = f'{module}:{parameter}'
+                    if readerror:
+                        reply = ERRORPREFIX + EVENTREPLY, spec, (readerror.name, str(readerror), {'t': t})
+                    else:
+                        datatype = node.modules[module]['parameters'][parameter]['datatype']
+                        reply = EVENTREPLY, spec, [datatype.export_value(value), {'t': t}]
+                    conn.send_reply(reply)
         return ENABLEEVENTSREPLY, None, None
 
     def handle_deactivate(self, conn, specifier, data):
